@@ -1,7 +1,7 @@
 (* C16 — Session state exported at any point and restored resumes the session.  Statements only;
-   proofs in Conn/Restore.v and Conn/OwnStep.v.  Nothing else may be added to this file. *)
+   proofs in Conn/Restore.v, Conn/OwnStep.v, Conn/SupStep.v and Conn/SessInv.v.  Nothing else may be added to this file. *)
 From MQ Require Import Base.Prelude Alloc.Alloc Alloc.AllocProofs Framing.Framing Conn.Types Conn.ConnRecord Conn.Step
-                       Corr.ConnTrace Conn.IdsQuota Conn.Scope Conn.Restore Conn.Own Conn.OwnFrame Conn.OwnStep.
+                       Corr.ConnTrace Conn.IdsQuota Conn.Scope Conn.Restore Conn.Own Conn.OwnFrame Conn.OwnStep Conn.SupFrame Conn.SupStep Conn.SessInv Conn.Run.
 
 (* restore_packets on ANY object whose allocator is well formed, for EVERY export with distinct
    identifiers that are free: the store is extended by exactly the export in its order, each entry's
@@ -66,9 +66,49 @@ Theorem C16_restore_keeps_ownership : forall g l c,
 Proof. exact do_restore_own. Qed.
 Print Assumptions C16_restore_keeps_ownership.
 
-(* C16_partial: that the restored object's later behaviour EQUALS the original's is the paired-run
-   monitor mon_pair (original implementation object vs restored implementation object, events and full
-   digest after the reconnect) together with the restore theorems above, not a single theorem. *)
+(* THE EXPORT OF A REACHABLE STATE IS THE SESSION.  sess_inv (the store determines the in-flight sets and the
+   identifiers in use — the hypothesis of C16_restored_session_equal) follows from three invariants of EVERY call:
+   OWN (a stored packet's identifier is in use and awaited in the set of its kind; C08), SUP (in a persistent
+   session every awaited identifier has its packet in the store; Conn/SupStep.v) and ENT (the store holds only
+   QoS 1/2 PUBLISH and PUBREL entries), in a state where the application holds no identifier ([no_app_ids]). *)
+Theorem C16_invariants_give_session_invariant : forall g c,
+  OWN g c -> SUPX c -> ENT c -> no_app_ids c -> sess_inv g c.
+Proof. exact own_sup_sess_inv. Qed.
+Print Assumptions C16_invariants_give_session_invariant.
+
+(* the three invariants are kept by every call, for a determined version, under the application's side of the
+   contract: identifiers handed to send() are held by the application (own_op_ok), and persistence is switched on
+   (CONNECT, CONNACK, set_offline_publish(true), restore) only while it is on already or nothing is in flight
+   (sup_op_ok) *)
+Theorem C16_step_keeps_invariants : forall g c o, K g c -> k_contract c o ->
+  match step g c o with Ok (c', _, _) => K g c' | Panic _ => True end.
+Proof. exact step_keeps_K. Qed.
+Print Assumptions C16_step_keeps_invariants.
+
+(* OVER HISTORIES: in EVERY state of every such history of a freshly constructed object in which the session is
+   persistent and the application holds no identifier, the session invariant holds — and the export of that
+   state (stored packets, handled ids), restored into a fresh object with the same options, rebuilds a session
+   state EQUAL to the original's: same store in the same order, same three in-flight sets, same identifiers in
+   use, same handled set.  By C16_restored_resumes_like_original_* the reconnect then has equal state and events
+   on both, and so has every continuation. *)
+Theorem C16_history_session_invariant : forall g v ops c,
+  1 <= g_idmax g -> v <> VUndet -> k_history_ok g (conn_new g v) ops -> run_state g (conn_new g v) ops = Some c ->
+  c_need_store c = true -> no_app_ids c -> sess_inv g c.
+Proof. exact history_sess_inv. Qed.
+Print Assumptions C16_history_session_invariant.
+
+Theorem C16_history_restore_equal : forall g v ops c,
+  1 <= g_idmax g -> v <> VUndet -> k_history_ok g (conn_new g v) ops -> run_state g (conn_new g v) ops = Some c ->
+  c_need_store c = true -> no_app_ids c -> asc 1 (g_idmax g) (c_qos2 c) ->
+  let r := set_qos2 (do_restore (fresh_like g c) (c_store c)) (fold_left (fun s i => ins i s) (c_qos2 c) []) in
+  session_eq r c /\ conn_scope_eq r (fresh_like g c).
+Proof. exact history_restore_equal. Qed.
+Print Assumptions C16_history_restore_equal.
+
+(* C16_partial: on the MODEL side what is left is the ordering invariant of the handled-id set (asc, a
+   representation detail the theorem takes as a hypothesis) and the application contract itself.  The
+   implementation is judged by the paired-run monitor mon_pair (original implementation object vs restored
+   implementation object, events and full digest after the reconnect) and the store stage. *)
 
 Example C16_nonvacuous :
   let g := mkCfg RClient 65535 2 in
@@ -78,3 +118,20 @@ Example C16_nonvacuous :
   c_store c = [p1; p2] /\ c_puback c = [3] /\ c_pubcomp c = [5] /\ a_pool (c_pid c) = [(1, 2); (4, 4); (6, 65535)] /\
   c_store (restored g c) = [p1; p2] /\ a_pool (c_pid (restored g c)) = a_pool (c_pid c).
 Proof. vm_compute. repeat split. Qed.
+
+(* the history theorem's premises are satisfiable: a persistent v5.0 session with a QoS 1 and a QoS 2 PUBLISH in
+   flight; every identifier in use is awaited (the application holds none) *)
+Example C16_history_nonvacuous :
+  let g := mkCfg RClient 65535 2 in
+  let cn := mkPkt 1 V50 0 0 false false [] None 0 0 20 false 0 false 0 None None None (Some 100) None in
+  let ca := mkPkt 2 V50 0 0 false false [] None 0 0 5 true 0 false 0 None None None None None in
+  let pb1 := mkPkt 3 V50 1 1 false false [116] None 0 3 10 false 0 false 0 None None None None None in
+  let pb2 := mkPkt 3 V50 2 2 false false [116] None 0 0 7 false 0 false 0 None None None None None in
+  let ops := [OSend cn; ORecv [32;3;0;0;0] (PROk ca); OAcquire; OSend pb1; OAcquire; OSend pb2] in
+  k_history_ok g (conn_new g V50) ops /\
+  match run_state g (conn_new g V50) ops with
+  | Some c => c_need_store c = true /\ map k_pid (c_store c) = [1; 2] /\ c_puback c = [1] /\ c_pubrec c = [2] /\
+              a_pool (c_pid c) = [(3, 65535)]
+  | None => False
+  end.
+Proof. vm_compute. repeat split; try reflexivity; try discriminate; intros; try discriminate; auto. Qed.
